@@ -10,23 +10,23 @@ def check(pid, text, note, technique, ref):
     CHECKS[pid] = dict(text=text, note=note, technique=technique, ref=ref)
 
 check("C01",
-      "Generated task programs (shape-first: chain/tree/comb/diamond/re-entry comb/staggered/free-form; nested tuple/list/dict yields, DAG sharing, the same object yielded again, synchronous re-entry incl. direct item.value() calls, try/except, contexts, failing leaves, one lazy Future object in several places) are run on both builds under generated get_priority tables and every calling convention; root outcome and every task's transcript must equal an independent sequential reference interpreter, and be identical across conventions and under the reversed priority table. Library tools are leaves of the programs too (deduplicated functions incl. self re-entry and two same-named functions, alru_cache'd functions, async generators consumed by list_of_generator or iterated by hand a few items per statement, amap/afilter/asorted/amin/amax with blocking keys, aretry, call_with_context with a recording / failing / suppressing context); the reference knows each tool's documented result. Half of the programs are run a second time on the same thread with nothing reset in between (for some, the second run's root task object and the shared task objects are created before the first run starts; with-blocks are entered and left outside any task between the runs; some first runs follow a small computation that ran before the harness subscribed to the scheduler's hooks) and must satisfy the same oracle. An enumerated boundary-size campaign (tuples / lists / dicts / sibling fans of 127..70 000 members, a synchronous call made with 65 537 entries on the scheduler stack) targets narrowed C integer types of the compiled build. Search, not proof: evidence reports cases, distinct non-trivial cases and class distribution.",
+      "Generated task programs (shape-first: chain/tree/comb/diamond/re-entry comb/staggered/free-form; nested tuple/list/dict yields, DAG sharing, the same object yielded again, synchronous re-entry incl. direct item.value() calls, try/except, contexts, failing leaves, one lazy Future object in several places) are run on both builds under generated get_priority tables and every calling convention; root outcome and every task's transcript must equal an independent sequential reference interpreter, and be identical across conventions and under the reversed priority table. Library tools are leaves of the programs too (deduplicated functions incl. self re-entry and two same-named functions, alru_cache'd functions, async generators consumed by list_of_generator or iterated by hand a few items per statement, amap/afilter/asorted/amin/amax with blocking keys, aretry, call_with_context with a recording / failing / suppressing context); the reference knows each tool's documented result. An enumerated boundary-size campaign (tuples / lists / dicts / sibling fans of 127..70 000 members, a synchronous call made with 65 537 entries on the scheduler stack) targets narrowed C integer types of the compiled build. Search, not proof: evidence reports cases, distinct non-trivial cases and class distribution.",
       "Trusted: the 170-line reference interpreter (harness/e1/ref.py), the harness batch kinds (written as the README prescribes), Hypothesis. Flush orders are steered via get_priority, a superset of what set-iteration tie-breaks can produce between batches of different kinds.",
       "property-based differential testing against a sequential reference interpreter + metamorphic relations (calling convention, reversed priorities), Hypothesis-generated program ASTs, structural shrinking",
       "DESIGN.md 5/C01")
 
 check("C02",
-      "Fault-heavy generated programs (a task raising at any step, item errors, items left unset, flush bodies raising after a prefix, ErrorFuture, failing lazy Future, non-future objects; try/except on or off at every level; synchronous re-entry; DAG sharing; library tools as leaves, e.g. a function failing inside call_with_context, whose context must be told about the failure and may suppress it) on both builds. Oracle: the sequential reference's 'first failure in structure order' for outcome and every transcript; in-body monitors assert exception *identity* (the object caught is error() of the first failing future), that every future yielded alongside is computed at delivery, and that value() raises the task's own error object. Half of the programs are run a second time on the same thread with nothing reset in between (for some, the second run's root task object and the shared task objects are created before the first run starts; with-blocks are entered and left outside any task between the runs; some first runs follow a small computation that ran before the harness subscribed to the scheduler's hooks) and must satisfy the same oracle. Hangs are caught by the heartbeat watchdog and confirmed alone before being reported.",
+      "Fault-heavy generated programs (a task raising at any step, item errors, items left unset, flush bodies raising after a prefix, ErrorFuture, failing lazy Future, non-future objects; try/except on or off at every level; synchronous re-entry; DAG sharing; library tools as leaves, e.g. a function failing inside call_with_context, whose context must be told about the failure and may suppress it) on both builds. Oracle: the sequential reference's 'first failure in structure order' for outcome and every transcript; in-body monitors assert exception *identity* (the object caught is error() of the first failing future), that every future yielded alongside is computed at delivery, and that value() raises the task's own error object. Hangs are caught by the heartbeat watchdog and confirmed alone before being reported.",
       "Trusted: reference interpreter, harness batch kinds; which items a raising flush leaves unset is read from the flush body's own log. NonAsyncContext / failing contexts are excluded from this property's programs.",
       "property-based testing with fault injection at generated positions; differential against a sequential reference + identity/ordering monitors inside the generated task bodies",
       "DESIGN.md 5/C02")
 check("C04",
-      "Yield-only generated programs (unequal depths, DAG sharing, errors, failing flush bodies, try/except, contexts, 1-3 batch kinds, generated priority tables; deduplicated / cached / generator / amap / aretry leaves in the invariant campaign). At every on_before_batch_flush the harness asserts from its own records that every awaited, uncompleted task has started and still waits on an uncomputed future (induction over the acyclic program gives 'is waiting on an unflushed item'); single-kind programs are additionally compared with an independent round simulator: number of flushes = critical path, and the argument multiset of each flush = the simulator's round (also on fans of up to 65 537 siblings). Half of the programs run a second time without any reset and must satisfy the same oracles. A further campaign starts each program while the scheduler still holds a request registered by an earlier computation (its task failed while parked on it): no flush may precede the start of the awaited task.",
+      "Yield-only generated programs (unequal depths, DAG sharing, errors, failing flush bodies, try/except, contexts, 1-3 batch kinds, generated priority tables; deduplicated / cached / generator / amap / aretry leaves in the invariant campaign). At every on_before_batch_flush the harness asserts from its own records that every awaited, uncompleted task has started and still waits on an uncomputed future (induction over the acyclic program gives 'is waiting on an unflushed item'); single-kind programs are additionally compared with an independent round simulator: number of flushes = critical path, and the argument multiset of each flush = the simulator's round (also on fans of up to 65 537 siblings). A further campaign starts each program while the scheduler still holds a request registered by an earlier computation (its task failed while parked on it): no flush may precede the start of the awaited task.",
       "Trusted: round simulator (harness/e1/sim.py), harness bookkeeping of what each task yielded. With several kinds only the invariant is asserted (the flush count is schedule dependent).",
       "property-based testing: invariant checked at every flush event + differential against a round-based reference scheduler",
       "DESIGN.md 5/C04")
-check("C05 Half of the programs run a second time on the same scheduler without any reset (some after a computation that ran before the hooks were subscribed) under the same oracles.",
-      "Generated programs over 2-3 batch kinds with generated get_priority tables (overrides, ties, default), flush bodies that succeed / set errors / skip items / raise after a prefix / whose public flush() raises / that call synchronously into asynq, clients that cancel their pending batch or call item.value() directly, with and without nested synchronous calls. History invariants over before/body/after events: each batch at most once, never empty or already flushed, nothing flushed once the innermost awaited computation is complete, events exactly before,body,after (after also on failure); yield-only: flushed priority = max over the harness-computed candidate set; every item announced once inside its batch's window with the outcome its flush set; waiting tasks receive exactly that (reference interpreter fed with the flush log).",
+check("C05",
+      "Generated programs over 2-3 batch kinds with generated get_priority tables (overrides, ties, default), flush bodies that succeed / set errors / skip items / raise after a prefix / whose public flush() raises / that call synchronously into asynq, clients that cancel their pending batch or call item.value() directly, with and without nested synchronous calls. History invariants over before/body/after events: each batch at most once, never empty or already flushed, nothing flushed once the innermost awaited computation is complete, events exactly before,body,after (after also on failure); yield-only: flushed priority = max over the harness-computed candidate set; every item announced once inside its batch's window with the outcome its flush set; waiting tasks receive exactly that (reference interpreter fed with the flush log). Half of the programs run a second time on the same scheduler without any reset (some after a computation that ran before the hooks were subscribed) under the same oracles.",
       "Trusted: harness batch kinds and their log, reference interpreter. Ties may resolve either way (only a strictly greater pending priority is a violation).",
       "property-based testing: history invariants over flush events of generated programs + differential on received values",
       "DESIGN.md 5/C05")
@@ -37,23 +37,23 @@ check("C03",
       "property-based testing with in-body runtime monitors over generated DAG programs + enumerated deep-chain scalability cases + watchdog",
       "DESIGN.md 5/C03")
 check("C06",
-      "Generated programs with recording AsyncContext blocks (real with statements: spanning several yields, nested, in many concurrently pending tasks, left normally / by delivered error / by an exception the same task handles / by early result, with synchronous re-entry and DAG sharing; blocks inside @async_generator() bodies -- around an awaited future, around one Value, around several Values -- consumed by list_of_generator or iterated by hand under the consumer's own blocks; call_with_context). Oracle per context: the event sequence is r(pr)*Xp -- resume at entry, strict alternation, exactly one pause after the block exit X and nothing afterwards; at every statement of every task and at every flush the context is active iff its owner is ancestor-or-self (uniquely) of the running task / of the task whose synchronous call drives the flush, and paused if its owner does not reach the running task at all -- computed from the program's await/sync-call graph. NonAsyncContext: yield-only tree programs compared with a NonAsyncContext-aware round simulator (a task fails with AssertionError iff it has to be suspended inside the block). Half of the async-context programs run a second time without any reset (top-level with-blocks in between, task objects created before the first run) under the same oracle; NonAsyncContext blocks use a Python subclass or the class itself. One task holding 5..300 contexts at once (boundary sizes) is checked with the same rule.",
+      "Generated programs with recording AsyncContext blocks (real with statements: spanning several yields, nested, in many concurrently pending tasks, left normally / by delivered error / by an exception the same task handles / by early result, with synchronous re-entry and DAG sharing; blocks inside @async_generator() bodies -- around an awaited future, around one Value, around several Values -- consumed by list_of_generator or iterated by hand under the consumer's own blocks; call_with_context). Oracle per context: the event sequence is r(pr)*Xp -- resume at entry, strict alternation, exactly one pause after the block exit X and nothing afterwards; at every statement of every task and at every flush the context is active iff its owner is ancestor-or-self (uniquely) of the running task / of the task whose synchronous call drives the flush, and paused if its owner does not reach the running task at all -- computed from the program's await/sync-call graph. NonAsyncContext: yield-only tree programs compared with a NonAsyncContext-aware round simulator (a task fails with AssertionError iff it has to be suspended inside the block). One task holding 5..300 contexts at once (boundary sizes) is checked with the same rule.",
       "Trusted: round simulator, the harness's record of the await graph. Nothing is asserted about which of two awaiters' contexts is active for a shared task; contexts whose own pause/resume raise are out of scope here (C08).",
       "property-based testing: runtime monitors + event-log invariants over generated programs; differential against a round simulator for NonAsyncContext",
       "DESIGN.md 5/C06")
-check("C07 Bodies of library tools called by a task read the value after their request came back; half of the programs run a second time without any reset (top-level override blocks in between, task objects created before the first run) under the same oracles.",
-      "Generated programs with AsyncScopedValue.override / async_override blocks on shared values, reads at generated positions, nested and concurrent overrides in many pending tasks, synchronous re-entry and failures. Oracle: the global resume/pause log of all contexts is well-parenthesised (LIFO); every read equals the dynamic-scope value computed by the sequential reference interpreter; after the call returns or raises every value/attribute equals its initial value; override values include None and 0; one task holding 5..300 overrides at once is an enumerated boundary case.",
+check("C07",
+      "Generated programs with AsyncScopedValue.override / async_override blocks on shared values, reads at generated positions, nested and concurrent overrides in many pending tasks, synchronous re-entry and failures. Oracle: the global resume/pause log of all contexts is well-parenthesised (LIFO); every read equals the dynamic-scope value computed by the sequential reference interpreter; after the call returns or raises every value/attribute equals its initial value; override values include None and 0; one task holding 5..300 overrides at once is an enumerated boundary case. Bodies of library tools called by a task read the value after their request came back; half of the programs run a second time without any reset (top-level override blocks in between, task objects created before the first run) under the same oracles.",
       "Trusted: reference interpreter's dynamic scoping. Reads inside tasks with two awaiters are not generated (ambiguous scope).",
       "property-based differential testing against a sequential reference (dynamic scoping) + LIFO invariant over the context event log",
       "DESIGN.md 5/C07")
 
 check("C08",
-      "Generated histories of 1-4 programs run one after another on the same thread without resetting the scheduler; every program has arbitrary failure points (task steps, items, raising and hard-failing flushes, failing lazy futures, contexts whose pause/resume raise, NonAsyncContext, MAX_TASK_STACK_SIZE lowered below the program's need, library tools incl. a deduplicated body that re-enters itself from a failure handler) and nested synchronous re-entry. Inside bodies get_active_task() must be the running task at every statement and after each nested synchronous call; after each computation get_active_task() is None, the scheduler retains no task, str(scheduler) works, and a fixed canary computation (own batch kind, context, nested structure) produces exactly the trace it produces on a fresh scheduler -- with every in-body and per-flush monitor of the engine silent -- without flushing anything foreign (after a runaway recursion in a yield-only program the harness leaves the dead computation's batches alone, because asynq resets the scheduler itself there).",
+      "Generated histories of 1-4 programs run one after another on the same thread without resetting the scheduler; every program has arbitrary failure points (task steps, items, raising and hard-failing flushes, failing lazy futures, contexts whose pause/resume raise, NonAsyncContext, MAX_TASK_STACK_SIZE lowered below the program's need, library tools incl. a deduplicated body that re-enters itself from a failure handler) and nested synchronous re-entry. Inside bodies get_active_task() must be the running task at every statement and after each nested synchronous call; after each computation get_active_task() is None, the scheduler retains no task, str(scheduler) works, and a fixed canary computation (own batch kind, context, nested structure) produces exactly the trace it produces on a fresh scheduler, without flushing anything foreign (after a runaway recursion in a yield-only program the harness leaves the dead computation's batches alone, because asynq resets the scheduler itself there).",
       "Trusted: the canary's fresh-scheduler trace (recorded in the same process); leftover *batches* are cancelled by the harness between computations (the statement speaks of tasks). The in-body monitor is not consulted under a lowered stack limit.",
       "model-based history testing: Hypothesis-generated sequences of fault-injected programs against a 'fresh scheduler' canary oracle + state invariants after every step",
       "DESIGN.md 5/C08")
 check("C20",
-      "Tie-free generated programs (synchronous re-entry incl. the re-entry comb shape and direct item.value() calls, failures, several batch kinds, DebugBatchItem, contexts, library tools as leaves; half of the cases under a lowered MAX_TASK_STACK_SIZE) are run under default options and then under every single boolean debug option, all-on, and generated subsets (thorough: all pairs with the three options that touch scheduling paths), with SCHEDULER_STATE_DUMP_INTERVAL=0 so dump code executes and a harness clock stepping 1 us .. 1e11 us per reading, on both builds. Every run is followed, on the same scheduler and under the same options, by the same program once more, by a fixed further computation and by a call whose argument cannot be rendered (repr raises RecursionError). Metamorphic oracle: outcome, every transcript, flush compositions and the context event log of all four must be identical to the default-options run.",
+      "Tie-free generated programs (synchronous re-entry incl. the re-entry comb shape and direct item.value() calls, failures, several batch kinds, DebugBatchItem, contexts, library tools as leaves; half of the cases under a lowered MAX_TASK_STACK_SIZE) are run under default options and then under every single boolean debug option, all-on, and generated subsets (thorough: all pairs with the three options that touch scheduling paths), with SCHEDULER_STATE_DUMP_INTERVAL=0 so dump code executes and a harness clock stepping 1 us .. 1e11 us per reading, on both builds. Every run is followed, on the same scheduler and under the same options, by a fixed second computation and by a call whose argument cannot be rendered (repr raises RecursionError). Metamorphic oracle: outcome, every transcript, flush compositions and the context event log of all three must be identical to the default-options run.",
       "Trusted: tie-freeness of generated programs (distinct constant priority per kind), the harness clock replacing asynq.scheduler.utime. Diagnostic text is only required to be produced without raising.",
       "metamorphic property-based testing: same generated program under enumerated option configurations and generated clock magnitudes must yield the identical observable trace",
       "DESIGN.md 5/C20")
